@@ -277,10 +277,23 @@ pub fn gen_channel(fam: u64, rng: &mut Xoshiro, n: usize, bps: u32) -> Vec<i32> 
             let mut i = 0;
             while i < n {
                 let len = (16 + rng.next() % 64) as usize;
-                let f = rng.next() % 11;
+                let f = rng.next() % 11; // (nested families stay among the first eleven)
                 let part = gen_channel(f, rng, len.min(n - i), bps);
                 v.extend(part);
                 i = v.len();
+            }
+        }
+        14 => {
+            // "tilted hiss": white noise with a very slight first-order correlation, so that the best
+            // LP coefficients are tiny (large quantisation shifts) and LPC barely beats the fixed predictors
+            let eps = [0.01f64, 0.02, 0.04, 0.06, -0.03, 0.005][(rng.next() % 6) as usize];
+            let amp = ((hi as f64) * [0.02f64, 0.1, 0.4][(rng.next() % 3) as usize]).max(2.0);
+            let mut prev = 0f64;
+            for _ in 0..n {
+                let w = ((rng.next() % 20001) as f64 - 10000.0) / 10000.0 * amp;
+                let x = w + eps * prev;
+                prev = x;
+                v.push(clampb(x as i64, bps));
             }
         }
         12 => {
@@ -298,7 +311,7 @@ pub fn gen_channel(fam: u64, rng: &mut Xoshiro, n: usize, bps: u32) -> Vec<i32> 
     v
 }
 
-pub const N_FAM: u64 = 14;
+pub const N_FAM: u64 = 15;
 
 /// PCM, interleaved, plus the per-channel view
 #[derive(Clone, Debug)]
